@@ -695,6 +695,18 @@ class Rendering:
             lo = s0 + (ts0[-2] if len(ts0) > 1 else ts0[-1])
             hi = s1 + (ts1[1] if len(ts1) > 1 else ts1[0])
             out.append((lo, hi, m))
+        # the first / last event of the channel: where it starts or ends away from zero with nothing next to it (only a
+        # re-read sequence can hold such an event: the reader extrapolates `last` of a raster shape), the export steps
+        # to zero within the implementation's 1e-9 s nudge, so the rendering is two-valued at that instant
+        if self.items:
+            s0, e0, g0 = self.items[0]
+            ts0, vs0 = event_corners(g0, self.h.raster)
+            if vs0[0] != 0:
+                out.append((s0 + ts0[0] - TEDGE, s0 + (ts0[1] if len(ts0) > 1 else ts0[0]), abs(vs0[0])))
+            s1, e1, g1 = self.items[-1]
+            ts1, vs1 = event_corners(g1, self.h.raster)
+            if vs1[-1] != 0:
+                out.append((s1 + (ts1[-2] if len(ts1) > 1 else ts1[-1]), s1 + ts1[-1] + TEDGE, abs(vs1[-1])))
         self._junc = out
         return out
 
